@@ -108,7 +108,7 @@ func runC15(sc *Scenario, keepLog bool) *RunReport {
 	resetForRun() // cold cache: first-time compilations happen inside the run
 	sim := newSimFor(sc, keepLog)
 	defer rt.Install(nil)
-	cr := runConcurrent(sc, sim, nil, nil, 60*time.Second)
+	cr := runConcurrent(sc, sim, nil, nil, 30*time.Second)
 	var kinds []string
 	if cr.Run.Stuck {
 		rep.HarnessErr = "watchdog: a task did not come back to the controller"
